@@ -190,9 +190,21 @@ pub fn run(ctx: &Ctx, rep: &mut Report) {
         if !ok {
             continue;
         }
+        // (b') the same stack loaded from files through the configuration (systemDict / userDict paths), with one user
+        // dictionary listed twice in a row: every listed file is a layer of its own
+        if ok && n_layers >= 1 && n_layers <= 8 && wi % 2 == 0 {
+            file_based(&world, &mut rng, rep, wi);
+        }
         // (c) morpheme level: words that exist in exactly one layer and are cheap enough to win
-        let mut t = Tok::new(&world.dict, Mode::C);
+        // (second pass: a tokenizer that requests only part of the fields, POS among them)
         let mut checked = 0;
+        for pass in 0..2 {
+        let mut t = Tok::new(&world.dict, Mode::C);
+        if pass == 1 {
+            let bits = 0x004 | ((rng.next() as u32) & 0x23b);
+            t.tok.set_subset(crate::fields::subset_of(bits));
+            rep.count("morpheme_passes_with_a_field_subset", 1);
+        }
         for dic in 0..=n_layers {
             for (row, e) in world.lexicon_of(dic).entries.iter().enumerate() {
                 if !e.indexed() || e.key.chars().count() < 2 {
@@ -246,6 +258,7 @@ pub fn run(ctx: &Ctx, rep: &mut Report) {
                 break;
             }
         }
+        }
         rep.count("morphemes_checked", checked);
         if ok {
             if n_layers >= 2 {
@@ -254,6 +267,97 @@ pub fn run(ctx: &Ctx, rep: &mut Report) {
             if rep.want_sample() && n_layers >= 3 {
                 rep.sample(json!({"layers": n_layers, "plugin_registered_pos": n_plugin_pos, "pos_list_size": world.dict.grammar().pos_list.len(),
                     "user_rows": world.users.iter().map(|u| u.entries.len()).collect::<Vec<_>>()}));
+            }
+        }
+    }
+}
+
+/// Loads the world's dictionaries from files named in the configuration; one user dictionary is listed twice in a row.
+fn file_based(world: &crate::scen::World, rng: &mut Rng, rep: &mut Report, wi: u64) {
+    use sudachi::config::ConfigBuilder;
+    use sudachi::dic::dictionary::JapaneseDictionary;
+    let dir = &world.res;
+    dir.write_bytes("system.dic", &world.sys_bytes);
+    let mut order: Vec<usize> = (0..world.users.len()).collect();
+    let dup = rng.below(order.len());
+    order.insert(dup, order[dup]);
+    let mut paths = vec![];
+    for (j, u) in order.iter().enumerate() {
+        let name = format!("user{}.dic", u);
+        dir.write_bytes(&name, &world.user_bytes[*u]);
+        let _ = j;
+        paths.push(dir.path.join(&name).to_string_lossy().to_string());
+    }
+    let mut cfg_json = world.cfg_json.clone();
+    cfg_json["systemDict"] = json!(dir.path.join("system.dic").to_string_lossy().to_string());
+    cfg_json["userDict"] = json!(paths);
+    let scen = |extra: &str| json!({"world_index": wi, "userDict_order": order, "detail": extra, "config": cfg_json, "world": world.describe(true)});
+    rep.eval();
+    let loaded = guard(|| {
+        let cfg = ConfigBuilder::from_bytes(&serde_json::to_vec(&cfg_json).unwrap()).map_err(|e| format!("{:?}", e))?.resource_path(dir.path.clone()).build();
+        JapaneseDictionary::from_cfg(&cfg).map_err(|e| format!("{:?}", e))
+    });
+    let dict = match loaded {
+        Ok(Ok(d)) => d,
+        Ok(Err(e)) => {
+            if order.len() >= 15 && e.contains("TooManyDictionaries") {
+                rep.count("fifteenth_dictionary_rejected_with_error", 1);
+            } else {
+                rep.violation("load_error", "JapaneseDictionary::from_cfg", &format!("the stack loads from memory but not from files: {}", clip(&e, 300)), "", scen(""));
+            }
+            return;
+        }
+        Err(p) => {
+            rep.violation("load_panic", &p.site, &p.msg, "", scen("from_cfg"));
+            return;
+        }
+    };
+    if order.len() >= 15 {
+        rep.violation("too_many_accepted", "JapaneseDictionary::from_cfg", "15 listed user dictionaries were accepted", "", scen(""));
+        return;
+    }
+    rep.count("stacks_loaded_from_files", 1);
+    let lex = dict.lexicon();
+    for (j, u) in order.iter().enumerate() {
+        let dic = j + 1;
+        let layer = &world.users[*u];
+        for (row, e) in layer.entries.iter().enumerate() {
+            if !e.indexed() {
+                continue;
+            }
+            rep.count("file_based_rows_checked", 1);
+            let found = guard(|| lex.lookup(e.key.as_bytes(), 0).any(|x| x.end == e.key.len() && x.word_id.dic() as usize == dic && x.word_id.word() as usize == row));
+            match found {
+                Ok(true) => {}
+                Ok(false) => {
+                    rep.violation("wrong_dictionary_id", "lookup", &format!("user dictionary listed at position {} (file user{}.dic) row {} ({:?}) is not returned by lookup under dictionary number {}", dic, u, row, e.key, dic), "", scen(""));
+                    return;
+                }
+                Err(p) => {
+                    rep.violation("read_panic", &p.site, &p.msg, "", scen("lookup"));
+                    return;
+                }
+            }
+            match guard(|| entry_view(&dict, dic, row)) {
+                Ok(Ok(v)) => {
+                    if v[1] != e.pos.join(",") {
+                        rep.violation("wrong_pos", "part of speech", &format!("file-based stack: dictionary {} row {} ({:?}) declares POS {} but reports {}", dic, row, e.key, e.pos.join(","), v[1]), "", scen(""));
+                        return;
+                    }
+                    let refs = |r: &[Ref]| r.iter().map(|x| format!("{}:{}", if x.dic == 0 { 0 } else { dic }, x.row)).collect::<Vec<_>>().join("/");
+                    if v[6] != refs(&e.split_a) || v[7] != refs(&e.split_b) {
+                        rep.violation("wrong_reference", "split units", &format!("file-based stack: dictionary {} row {} ({:?}): units resolve to {} / {}, declared {} / {}", dic, row, e.key, v[6], v[7], refs(&e.split_a), refs(&e.split_b)), "", scen(""));
+                        return;
+                    }
+                }
+                Ok(Err(er)) => {
+                    rep.violation("read_error", "get_word_info", &er, "", scen(&format!("dictionary {} row {}", dic, row)));
+                    return;
+                }
+                Err(p) => {
+                    rep.violation("read_panic", &p.site, &p.msg, "", scen(&format!("dictionary {} row {}", dic, row)));
+                    return;
+                }
             }
         }
     }
